@@ -22,9 +22,10 @@ Definition find_dim (m : vmodel) (d : string) : option bool :=
   option_map snd (find (fun p => String.eqb (fst p) d) (vm_dims m)).
 Definition gran_names : list string := ["hour"; "day"; "week"; "month"; "quarter"; "year"].
 
-(* graph-level metrics: name and, when its sql is dotted, the model named before the dot *)
-Definition gmetrics := list (string * option string).
-Fixpoint find_gm (gm : gmetrics) (n : string) : option (option string) :=
+(* graph-level metrics: name and the models it draws on (the model named before the dot of a dotted sql; the models of every dependency: numerator and denominator of a
+   ratio, every model a formula mentions) *)
+Definition gmetrics := list (string * list string).
+Fixpoint find_gm (gm : gmetrics) (n : string) : option (list string) :=
   match gm with [] => None | (k, v) :: r => if String.eqb k n then Some v else find_gm r n end.
 
 Definition metric_errors (ms : list vmodel) (gm : gmetrics) (r : mref) : list verr :=
@@ -49,12 +50,12 @@ Definition dim_errors (ms : list vmodel) (d : dref) : list verr :=
                            end
               end
   end.
-(* the models a query touches: the model part of every qualified metric, the model a graph-level metric's dotted sql names,
+(* the models a query touches: the model part of every qualified metric, every model a graph-level metric draws on,
    the model part of EVERY dimension reference -- with or without a granularity suffix *)
 Definition query_models (gm : gmetrics) (metrics : list mref) (dims : list dref) : list string :=
   flat_map (fun r => match r with
                      | MQual m _ => [m]
-                     | MBare n => match find_gm gm n with Some (Some m) => [m] | _ => [] end end) metrics ++
+                     | MBare n => match find_gm gm n with Some l => l | None => [] end end) metrics ++
   flat_map (fun d => match dq_model d with Some m => [m] | None => [] end) dims.
 Definition validate_query (ms : list vmodel) (g : graph) (gm : gmetrics) (metrics : list mref) (dims : list dref) : list verr :=
   flat_map (metric_errors ms gm) metrics ++ flat_map (dim_errors ms) dims ++
